@@ -283,17 +283,17 @@ def r2_r3_mapping(repo: Repo, rep):
     if na is None:
         raise AnalysisError("UserFunction.necessary_args vanished")
     rep.saw(na)
-    for p in paths(na.node):
-        if p.ret is RAISE:
+    from collections import OrderedDict
+    from ..absdom.listeval import Evaluator, Opaque
+    for args, defaults in ((["x", "y", "k", "j"], OrderedDict((("k", 1), ("j", None)))), (["x", "t"], OrderedDict()), (["a", "b"], OrderedDict((("a", 0), ("b", 0)))), ([], OrderedDict()),
+                           (["u", "x", "t"], OrderedDict((("x", 3),)))):
+        fr = Evaluator().run(na.node.body, {"self": Opaque("self")}, attrs={"self.defaults": OrderedDict(defaults), "self.args": list(args)})
+        want = [a for a in args if a not in defaults]
+        label = f"necessary_args of args {args} with defaults {dict(defaults)} == {want}"
+        if not isinstance(fr.ret, list):
+            rep.undecided(R3, na.site(), na.fq, label + " (evaluable)", repr(fr.ret)[:80])
             continue
-        r = p.ret
-        good = False
-        if isinstance(r, ast.ListComp) and len(r.generators) == 1:
-            g = r.generators[0]
-            if dump(g.iter) == "self.args" and len(g.ifs) == 1 and dump(r.elt) == dump(g.target):
-                t = g.ifs[0]
-                good = isinstance(t, ast.Compare) and len(t.ops) == 1 and isinstance(t.ops[0], ast.NotIn) and dump(t.left) == dump(g.target) and dump(t.comparators[0]) == "self.defaults"
-        rep.check(R3, good, na.site(), na.fq, "necessary_args == [a for a in self.args if a not in self.defaults]", dump(r), dump(r))
+        rep.check(R3, list(fr.ret) == want, na.site(), na.fq, label, f"{list(fr.ret)}", f"necessary_args {list(fr.ret)} for {args}/{sorted(defaults)}")
     # evaluate_function forwards its **kwargs unchanged
     for ci in (uf, duf):
         ef = ci.methods.get("evaluate_function")
@@ -315,49 +315,70 @@ def r2_r3_mapping(repo: Repo, rep):
                     srcs = [s for s in ast.walk(e.value) if isinstance(s, ast.Subscript) and dump(s.value) == pname]
                     good = bool(srcs) and all(dump(s.slice) == key for s in srcs)
                     rep.check(R2, good, ab.site(e.node), ab.fq, "per-row mapping keeps each value under its own key", dump(e.node), dump(e.node))
+        # partial evaluation: the row-wise calls do not depend on the order of the entries (the batch size is an aggregate over ALL bound values)
+        import itertools
+        from collections import OrderedDict
+        from ..absdom.listeval import Evaluator, Opaque, UNKNOWN
+        vals = {"c": ["c0"], "x": ["x0", "x1", "x2"], "k": ["k0", "k1", "k2"]}
+        want = [{"c": ["c0"], "x": f"x{i}", "k": f"k{i}"} for i in range(3)]
+        for order in itertools.permutations(vals):
+            calls = []
+
+            def on_call(e, name, a, kws, ev, f, calls=calls):
+                if name == "self.fun":
+                    kw = dict(kws)
+                    for q in e.keywords:
+                        if q.arg is None:
+                            m = ev.ev(q.value, f)
+                            if not isinstance(m, dict):
+                                return None
+                            kw.update(m)
+                    calls.append(dict(kw))
+                    return ("out", len(calls) - 1)
+                return None
+            fr = Evaluator(None, on_call).run(ab.node.body, {"self": Opaque("self"), pname: OrderedDict((k, list(vals[k])) for k in order)})
+            label = f"entries in the order {list(order)}: three row-wise calls, the constant passed whole"
+            if fr.ret is UNKNOWN or not fr.returned:
+                rep.undecided(R2, ab.site(), ab.fq, label + " (evaluable)", repr(fr.ret)[:60])
+                continue
+            rep.check(R2, calls == want and list(fr.ret or []) == [("out", i) for i in range(3)], ab.site(), ab.fq, label, f"{len(calls)} call(s): {calls[:2]}", f"order {order}: {len(calls)} calls")
 
 
 def r4_defaults_alignment(repo: Repo, rep):
-    R = rep.rule("R-C13-4", "declared defaults are aligned with the tail of the positional argument list", floor=1,
+    R = rep.rule("R-C13-4", "declared defaults are aligned with the tail of the positional argument list", floor=6,
                  why="Python defaults belong to the last len(defaults) parameters; any other pairing binds defaults to wrong names")
     uf = _cls(repo, "UserFunction")
     fi = uf.methods.get("_set_input_args_for_function")
     if fi is None:
         raise AnalysisError("UserFunction._set_input_args_for_function vanished")
     rep.saw(fi)
-    n = 0
-    for p in paths(fi.node):
-        if p.ret is RAISE:
+    # partial evaluation on signatures of positional-or-keyword parameters: inspect.getfullargspec is modelled by its documented fields
+    from collections import OrderedDict
+    from ..absdom.listeval import Evaluator, Obj, Opaque, UNKNOWN
+    cases = [(["x", "t", "k", "j"], (1, 2)), (["a"], None), (["a", "b", "c"], (5,)), (["a", "b"], (7, 8)), ([], None), (["u", "v", "w", "p", "q"], (1, 2, 3))]
+    for args, defaults in cases:
+        spec = Obj("spec", {"args": list(args), "varargs": None, "varkw": None, "defaults": defaults, "kwonlyargs": [], "kwonlydefaults": None, "annotations": {}})
+
+        foreign = []
+
+        def on_call(e, name, a, kws, ev, f, spec=spec, foreign=foreign):
+            if name in ("inspect.getfullargspec", "getfullargspec", "inspect.signature", "signature") and not (a is not None and len(a) == 1 and isinstance(a[0], Opaque) and a[0].tag == "fun"):
+                foreign.append(dump(e)[:80])
+                return None
+            if name in ("inspect.getfullargspec", "getfullargspec") and a is not None and len(a) == 1:
+                return Obj("spec", {k: (list(v) if isinstance(v, list) else v) for k, v in spec.fields.items()})
+            return None
+        fr = Evaluator(None, on_call).run(fi.node.body, {"self": Opaque("self")}, attrs={"self.fun": Opaque("fun"), "self.defaults": OrderedDict(), "self.args": {}})  # the only call site runs under `self.defaults == {} and self.args == {}`
+        want = dict(zip(args[len(args) - len(defaults):], defaults)) if defaults else {}
+        label = f"def f({', '.join(args)}) with defaults {defaults}: args {args}, defaults {want}"
+        ga, gd = fr.attrs.get("self.args", UNKNOWN), fr.attrs.get("self.defaults", UNKNOWN)
+        if foreign:
+            rep.violation(R, fi.site(), fi.fq, "the signature is read from self.fun, the callable that is invoked with the named values", f"signature of {foreign[0]}", f"foreign signature {foreign[0]}")
+            break
+        if fr.returned and fr.ret is UNKNOWN or not isinstance(ga, list) or not isinstance(gd, dict):
+            rep.undecided(R, fi.site(), fi.fq, label + " (evaluable)", f"args {ga!r}, defaults {gd!r}"[:120])
             continue
-        d = p.env.get("self.defaults")
-        if d is None:
-            rep.violation(R, fi.site(), fi.fq, "self.defaults assigned", "not assigned", "unassigned")
-            continue
-        if isinstance(d, ast.Dict) and not d.keys:
-            # the `defaults is None` path
-            none_guard = any("defaults" in dump(g) and "None" in dump(g) for g, pol, k in p.guards)
-            rep.check(R, none_guard, fi.site(), fi.fq, "empty defaults only when the function declares none", "empty dict without a None test", "empty")
-            continue
-        n += 1
-        good, detail = False, dump(d)
-        if isinstance(d, ast.Dict) and len(d.keys) == 1 and d.keys[0] is not None and getattr(d.values[0], "_iter_src", None) is not None:
-            # one-iteration form of {args[-i]: defaults[-i] for i in range(..)} / the equivalent insertion loop
-            k, v = d.keys[0], d.values[0]
-            if isinstance(k, ast.Subscript) and isinstance(v, ast.Subscript):
-                ki, vi = dump(k.slice), dump(v.slice)
-                args_src = dump(k.value)
-                neg = isinstance(k.slice, ast.UnaryOp) and isinstance(k.slice.op, ast.USub) and isinstance(k.slice.operand, ast.Name) and k.slice.operand.id in v._iter_of
-                rng = dump(v._iter_src).replace(" ", "")
-                full = rng in (f"range(len({dump(v.value)}),0,-1)", f"range(1,len({dump(v.value)})+1)", f"range(1,1+len({dump(v.value)}))")
-                good = ki == vi and neg and full and args_src in ("self.args", "f_args", "inspect.getfullargspec(self.fun).args", "inspect.getfullargspec(self.fun).args + inspect.getfullargspec(self.fun).kwonlyargs")
-        elif isinstance(d, ast.Call) and attr_chain(d.func) == "dict" and len(d.args) == 1 and isinstance(d.args[0], ast.Call) and attr_chain(d.args[0].func) == "zip":
-            z = d.args[0]
-            if len(z.args) == 2 and isinstance(z.args[0], ast.Subscript) and isinstance(z.args[0].slice, ast.Slice):
-                sl = z.args[0].slice
-                good = sl.upper is None and sl.lower is not None and dump(sl.lower).replace(" ", "") == f"-len({dump(z.args[1])})"
-        rep.check(R, good, fi.site(), fi.fq, "defaults[args[-i]] = f_defaults[-i] for i = 1..len(f_defaults) (equal negative index on both sides)", detail, detail)
-    if n == 0:
-        rep.undecided(R, fi.site(), fi.fq, "a path assigning non-empty defaults", "none")
+        rep.check(R, list(ga) == args and dict(gd) == want, fi.site(), fi.fq, label, f"args {list(ga)}, defaults {dict(gd)}", f"{args}/{defaults}: {list(ga)} {dict(gd)}")
 
 
 INPLACE = ("update", "pop", "clear", "setdefault", "popitem", "__setitem__", "__delitem__")
@@ -644,6 +665,9 @@ def run(repo: Repo, rep):
     r7_set_default(repo, rep)
     from .c14 import r5_module_state  # the declared arguments and defaults of a wrapper come from its own function object, not from a module-level table
     r5_module_state(repo, rep)
+    from .c14 import r1_r2_effects, r1b_setup  # "wrapping changes neither ... nor user-supplied containers": conditions wrap every entry of the user's data-function dict
+    r1_r2_effects(repo, rep)
+    r1b_setup(repo, rep)
 
 
 _U = "src/torchphysics/utils/user_fun.py"
